@@ -321,6 +321,18 @@ def run(cmd, input=None, timeout=20, cwd=None, envx=None, tmp=None):
         return "timeout", o, e
 
 
+def _pool_pids(pool):
+    return set(w.pid for w in getattr(pool, "_pool", []) if w is not None)
+
+
+def _check_workers(pool, pids0):
+    """multiprocessing.Pool silently replaces a worker that died (OOM killer, a crash inside the worker) and the task it
+    was running is lost: map()/imap() then wait forever.  A changed set of worker pids means exactly that."""
+    now = _pool_pids(pool)
+    if pids0 - now:
+        raise HarnessError("a worker process of the check died (pids %s gone): its task is lost; re-run the check" % sorted(pids0 - now))
+
+
 def pmap(fn, items, jobs=None, chunksize=1):
     """Ordered parallel map over processes (fork); fn must be a top-level function."""
     import multiprocessing as mp
@@ -329,7 +341,13 @@ def pmap(fn, items, jobs=None, chunksize=1):
         return [fn(x) for x in items]
     ctx = mp.get_context("fork")
     with ctx.Pool(jobs) as pool:
-        return pool.map(fn, items, chunksize)
+        pids0 = _pool_pids(pool)
+        res = pool.map_async(fn, items, chunksize)
+        while True:
+            res.wait(1.0)
+            if res.ready():
+                return res.get()
+            _check_workers(pool, pids0)
 
 
 def pimap(fn, items, jobs=None, chunksize=1):
@@ -338,7 +356,16 @@ def pimap(fn, items, jobs=None, chunksize=1):
     ctx = mp.get_context("fork")
     pool = ctx.Pool(jobs)
     try:
-        for r in pool.imap(fn, items, chunksize):
+        pids0 = _pool_pids(pool)
+        it = pool.imap(fn, items, chunksize)
+        while True:
+            try:
+                r = it.next(timeout=1.0)
+            except mp.TimeoutError:
+                _check_workers(pool, pids0)
+                continue
+            except StopIteration:
+                break
             yield r
     finally:
         # leaving the loop early (exception, break) can leave terminate()/join() waiting on a worker that is
